@@ -362,6 +362,24 @@ def run_stream_switch(rep, facts):
         (rep.ok if i["status"] == "ok" else rep.violation)("R7.7", i["instance"], i["detail"], i["loc"])
 
 
+def run_reply_flush(rep, facts):
+    """R7.8: "after all pending management replies": the reply buffer is drained by exactly what the transport accepted (rule R10.5,
+    re-evaluated) -- progress kept anywhere else is lost when a write is Pending, and the reply's prefix is sent twice, after which
+    the client cannot frame the epilogue."""
+    import check as _check
+    from . import c10
+    rep.rule("R7.8", "management replies pending at the epilogue reach the client exactly once: every consume_output(n) discards the byte count the "
+                     "preceding write of output_buffer() returned, or the whole buffer right after write_all completed (R10.5)")
+    sr = _check.Report("tmp", "quick")
+    c10.run(sr, facts)
+    n = 0
+    for i in sr.instances:
+        if i["rule"] == "R10.5":
+            n += 1
+            (rep.ok if i["status"] == "ok" else rep.violation)("R7.8", i["instance"], i["detail"], i["loc"])
+    rep.floor("R7.8", "consume_output sites", n, 3)
+
+
 def run_compaction(rep, facts):
     from . import c12
     rep.rule("R7.6", "while draining to a record boundary (and in every in-request read) the buffer is compacted before reading, so a handler that left a large record unread cannot make close() fail for lack of buffer space")
@@ -377,6 +395,7 @@ def main(rep, tier):
     check.guard(rep, "R7.5", run_handoff, f)
     check.guard(rep, "R7.6", run_compaction, f)
     check.guard(rep, "R7.7", run_stream_switch, f)
+    check.guard(rep, "R7.8", run_reply_flush, f)
     rep.configs.append({"features": "async,http", "profile": "debug", "bodies": len(f.bodies)})
     check.guard(rep, "R7", run, f)
     import check as _c
